@@ -7,6 +7,8 @@
 #[macro_use]
 mod core;
 mod flavor;
+mod gsweep;
+mod refmodel;
 mod model;
 mod plans;
 mod progress;
